@@ -32,7 +32,27 @@ func DefaultCreateConnection(remote net.Addr, block kcp.BlockCrypt) (net.Conn, e
 		listener = conn
 	}
 
-	return kcp.NewConn2(remote, block, 10, 3, listener)
+	session, err := kcp.NewConn2(remote, block, 10, 3, listener)
+	if err != nil {
+		_ = listener.Close()
+		return nil, errors.WithStack(err)
+	}
+	return &ownedPacketSession{Conn: session, packetConn: listener}, nil
+}
+
+// ownedPacketSession closes the packet socket created for a KCP session together with the session.
+// (A session created with kcp.NewConn2 does not own its socket and leaves it open on Close.)
+type ownedPacketSession struct {
+	net.Conn
+	packetConn net.PacketConn
+}
+
+func (o *ownedPacketSession) Close() error {
+	err := o.Conn.Close()
+	if e := o.packetConn.Close(); err == nil {
+		err = e
+	}
+	return err
 }
 
 func (ups *Packet) String() string {
